@@ -148,3 +148,41 @@ Proof.
     cbn [negb]. rewrite Hcond. reflexivity.
   - unfold after_value. cbn [u_ph u_inp u_used u_count]. rewrite Hc. cbn. repeat split; reflexivity.
 Qed.
+
+(* ---- the OUTPUT side of delta_binary_unpack's scratch use: checked writes never leave the buffer ---------------------- *)
+Lemma set_nth_length l i v : length (set_nth l i v) = length l.
+Proof. revert i. induction l as [|x l IH]; intros i; cbn [set_nth]; [reflexivity|]. destruct (i =? 0); cbn [length]; [reflexivity|]. now rewrite IH. Qed.
+
+(* a checked NumpyIO write (write_int / write_long) with an aligned cursor inside a buffer of whole items: never outside,
+   the cursor stays aligned and inside, the buffer keeps its size - it either stores the item or drops it *)
+Lemma o_write_inside isz o v :
+  0 < isz -> o_loc o mod isz = 0 -> o_nbytes o mod isz = 0 -> o_loc o <= o_nbytes o -> o_nbytes o < 2 ^ 32 ->
+  exists o', o_write isz o v = Ok o' /\ o_nbytes o' = o_nbytes o /\ o_loc o' mod isz = 0 /\ o_loc o' <= o_nbytes o' /\
+             length (o_items o') = length (o_items o).
+Proof.
+  intros Hisz Hal Hnb Hle Hlt. unfold o_write, o_room.
+  rewrite w32_small by lia.
+  destruct (Z.to_N (Z.of_N (o_nbytes o) - Z.of_N (o_loc o)) <? isz) eqn:E; cbn [negb].
+  - exists o. repeat split; try assumption; reflexivity.
+  - apply N.ltb_ge in E.
+    assert (H1 : o_loc o + isz <= o_nbytes o) by lia.
+    replace (o_loc o + isz <=? o_nbytes o) with true by (symmetry; apply N.leb_le; exact H1).
+    replace (o_loc o mod isz =? 0) with true by (symmetry; apply N.eqb_eq; exact Hal).
+    cbn [andb]. eexists. split; [reflexivity|]. cbn [o_nbytes o_loc o_items].
+    rewrite w32_small by lia. rewrite N2Z.id.
+    repeat split; try assumption.
+    + rewrite N.add_mod by lia. rewrite Hal, N.mod_same by lia. cbn [N.add]. apply N.mod_0_l. lia.
+    + apply set_nth_length.
+Qed.
+
+Lemma o_write_all_inside isz vs : forall o,
+  0 < isz -> o_loc o mod isz = 0 -> o_nbytes o mod isz = 0 -> o_loc o <= o_nbytes o -> o_nbytes o < 2 ^ 32 ->
+  exists o', o_write_all isz o vs = Ok o' /\ o_nbytes o' = o_nbytes o /\ o_loc o' mod isz = 0 /\ o_loc o' <= o_nbytes o' /\
+             length (o_items o') = length (o_items o).
+Proof.
+  induction vs as [|v vs IH]; intros o Hisz Hal Hnb Hle Hlt; cbn [o_write_all].
+  - exists o. repeat split; try assumption; reflexivity.
+  - destruct (o_write_inside isz o v Hisz Hal Hnb Hle Hlt) as [o1 [E [N1 [A1 [L1 I1]]]]]. rewrite E.
+    destruct (IH o1 Hisz A1 ltac:(rewrite N1; exact Hnb) L1 ltac:(rewrite N1; exact Hlt)) as [o2 [E2 [N2 [A2 [L2 I2]]]]].
+    exists o2. repeat split; try assumption; congruence.
+Qed.
